@@ -66,6 +66,8 @@ def table(I):
     reg(type, m_type)
 
     def m_len(x):
+        if hasattr(x, '__sym_len__'):
+            return x.__sym_len__()
         if isinstance(x, SBytes):
             n = x.length()
             return n
